@@ -48,10 +48,12 @@ def fine(x, tick=1.0):
     return int(k) if k * (tick / FDEN) == x and abs(k) < 2 ** 30 else -1
 
 
-def market_with_history(sim, mid, name, prices, fund, cls=Market, running=True, trade=True):
+def market_with_history(sim, mid, name, prices, fund, cls=Market, running=True, trade=True, extra=None):
     """a real Market whose market price at time t is prices[t] (set by a trade at that price in step t)"""
     m = cls(market_id=mid, prng=random.Random(mid), simulator=sim, name=name)
-    m.setup({"tickSize": 1.0, "marketPrice": prices[0], "outstandingShares": 100})
+    with warnings.catch_warnings():
+        warnings.simplefilter("ignore")
+        m.setup(dict({"tickSize": 1.0, "marketPrice": prices[0], "outstandingShares": 100}, **(extra or {})))
     sim._add_market(m)
     for t, p in enumerate(prices):
         m._update_time(next_fundamental_price=fund)
@@ -100,6 +102,8 @@ def fcn_cases(tier, seed):
         tr = max(tr_cfg, 1)           # a configured mean reversion time of 0 is guarded by max(., 1) in the documented formula
         normal = gi % 4 == 0          # margin type "normal": the quote is noised, the SIDE still follows the expected price
         twin = gi % 3 == 0            # a second accessible market in the same state: one order per accessible market
+        ws = [1.0, 0.125, 0.0625, 4.0][gi % 4 if gi % 5 else 1]      # the weights count relative to their sum, whatever the sum is
+        on_index = bool(other_first) and gi % 2 == 1    # the market is an INDEX market: its fundamental is the one it records
         T = W + 1 if early == 0 else max(0, W - early)      # market time at the decision
         tw = min(T, W)                                       # window actually used
         if tw == 0 and ap != a:
@@ -121,7 +125,11 @@ def fcn_cases(tier, seed):
         mkts = []
         if other_first:
             mkts.append(market_with_history(sim, 0, "other", [300.0] * (T + 1), 300.0))
-        m = market_with_history(sim, len(mkts), "m", prices, F)
+        if on_index:
+            # (the component's fundamental is 300: what the components would give is NOT what the index market recorded)
+            m = market_with_history(sim, len(mkts), "m", prices, F, cls=IndexMarket, extra={"markets": ["other"]})
+        else:
+            m = market_with_history(sim, len(mkts), "m", prices, F)
         mkts.append(m)
         mks = [m.market_id]
         if twin:
@@ -130,7 +138,7 @@ def fcn_cases(tier, seed):
             mks.append(m2.market_id)
         # (normal margin: quote = expected price + 2 x 10, always above the market price when the agent should SELL)
         ag = FCNAgent(agent_id=7, prng=StubGauss2(k, 2) if normal else StubGauss(k), simulator=sim, name="fcn")
-        ag.setup(settings={"cashAmount": 1000, "assetVolume": 10, "fundamentalWeight": wF, "chartWeight": wC, "noiseWeight": wN,
+        ag.setup(settings={"cashAmount": 1000, "assetVolume": 10, "fundamentalWeight": wF * ws, "chartWeight": wC * ws, "noiseWeight": wN * ws,
                            "noiseScale": LN2, "timeWindowSize": W, "orderMargin": 10.0 if normal else margin,
                            "marginType": "normal" if normal else "fixed",
                            "meanReversionTime": tr_cfg}, accessible_markets_ids=list(mks))
